@@ -76,23 +76,60 @@ class EmdStub:
     def emd2(self, a, b, M, log=False, **kw):
         a = [to_rat(x) for x in np.asarray(a, dtype=object).reshape(-1)]
         b = [to_rat(x) for x in np.asarray(b, dtype=object).reshape(-1)]
-        Mk = tuple(to_rat(x).key() for x in np.asarray(M, dtype=object).reshape(-1))
-        ka, kb = tuple(x.key() for x in a), tuple(x.key() for x in b)
         Mo = np.asarray(M, dtype=object)
-        symmetric = Mo.ndim == 2 and Mo.shape[0] == Mo.shape[1] and all(
-            to_rat(Mo[i, j]).key() == to_rat(Mo[j, i]).key() for i in range(Mo.shape[0]) for j in range(i))
-        swapped = False
-        if symmetric and repr(kb) < repr(ka):
-            # W(a,b;M) = W(b,a;M^T): one canonical application per unordered pair when M is symmetric
-            a, b, ka, kb, swapped = b, a, kb, ka, True
-        key = (ka, kb, Mk)
+        Mo = np.array([[to_rat(Mo[i, j]) for j in range(Mo.shape[1])] for i in range(Mo.shape[0])], dtype=object)
+        # W(a,b;M) is invariant under relabelling the source points (a_i with row i of M), the target points (b_j with
+        # column j) and under exchanging the roles (b,a,M^T): one canonical application per orbit, so that congruence by
+        # interning also identifies permuted / swapped calls.  Points are ordered by the repr of (mass term, cost row).
+        best = None
+        na_, nb_ = len(a), len(b)
+        if na_ <= 4 and nb_ <= 4:
+            import itertools as _it
+            ra = [repr(x.key()) for x in a]
+            rb = [repr(x.key()) for x in b]
+            rM = [[repr(Mo[i, j].key()) for j in range(nb_)] for i in range(na_)]
+            # candidate orders: only those sorting the masses (ties permuted exhaustively)
+            def orders(r):
+                idx = sorted(range(len(r)), key=lambda i: r[i])
+                groups = []
+                for i in idx:
+                    if groups and r[groups[-1][0]] == r[i]:
+                        groups[-1].append(i)
+                    else:
+                        groups.append([i])
+                for combo in _it.product(*[_it.permutations(g) for g in groups]):
+                    yield [i for g in combo for i in g]
+            for ia_ in orders(ra):
+                for ib_ in orders(rb):
+                    k1 = (tuple(ra[i] for i in ia_), tuple(rb[j] for j in ib_), tuple(rM[i][j] for i in ia_ for j in ib_))
+                    if best is None or k1 < best[0]:
+                        best = (k1, ia_, ib_, False)
+                    k2 = (tuple(rb[j] for j in ib_), tuple(ra[i] for i in ia_), tuple(rM[i][j] for j in ib_ for i in ia_))
+                    if k2 < best[0]:
+                        best = (k2, ia_, ib_, True)
+            _, ia, ib, swapped = best
+        else:
+            ia = sorted(range(len(a)), key=lambda i: repr((a[i].key(), sorted(repr(Mo[i, j].key()) for j in range(len(b))))))
+            ib = sorted(range(len(b)), key=lambda j: repr((b[j].key(), sorted(repr(Mo[i, j].key()) for i in range(len(a))))))
+            swapped = None
+        ka = tuple(a[i].key() for i in ia)
+        kb = tuple(b[j].key() for j in ib)
+        kM = tuple(Mo[i, j].key() for i in ia for j in ib)
+        kMt = tuple(Mo[i, j].key() for j in ib for i in ia)
+        if swapped is None:
+            swapped = repr((kb, ka, kMt)) < repr((ka, kb, kM))
+        key = (kb, ka, kMt) if swapped else (ka, kb, kM)
         cost = core.uf("emd", key, sign="0+")
-        u = np.empty(len(a), dtype=object)
-        v = np.empty(len(b), dtype=object)
-        for i in range(len(a)):
-            u[i] = core.uf("emd_u", key, i)
-        for j in range(len(b)):
-            v[j] = core.uf("emd_v", key, j)
+        # canonical duals, then mapped back to the caller's order
+        na, nb = len(a), len(b)
+        cu = [core.uf("emd_u", key, i) for i in range(nb if swapped else na)]
+        cv = [core.uf("emd_v", key, j) for j in range(na if swapped else nb)]
+        u = np.empty(na, dtype=object)
+        v = np.empty(nb, dtype=object)
+        for pos, i in enumerate(ia):
+            u[i] = (cv if swapped else cu)[pos]
+        for pos, j in enumerate(ib):
+            v[j] = (cu if swapped else cv)[pos]
         fid = cost.f[0][0]
         self.calls.append((key, cost))
 
@@ -108,8 +145,6 @@ class EmdStub:
                     terms.append(v[j] * db)
             return core.add_many(terms) if terms else core.ZERO
         self.grad_table[fid] = g
-        if swapped:
-            u, v = v, u
         if log:
             return cost, {"u": u, "v": v}
         return cost
@@ -276,4 +311,27 @@ def affinity_candidates(kind, n, A_model):
     else:
         G = rng.normal(size=(n, 3))
         out += [G @ G.T, np.exp(-line), R]
+    return out
+
+
+def candidate_models(model, n, Kc, pc, count=12, seed=11):
+    """the solver's point, then generic interior points that satisfy the same path condition (the solver is free to pick
+    a point that is degenerate for the abstracted parts -- identical clusters, zero costs -- where a real difference
+    vanishes; the failed obligation holds for the whole path, so any on-path point may exhibit it)."""
+    import random
+    base = {k: str(v) for k, v in (model or {}).items() if k[0] in "pam" and "!" not in k}
+    out = [base]
+    rng = random.Random(seed)
+    tries = 0
+    while len(out) < count and tries < 40 * count:
+        tries += 1
+        m = dict(base)
+        for i in range(n):
+            w = [rng.uniform(0.05, 1.0) for _ in range(Kc)]
+            t = sum(w)
+            for k in range(Kc - 1):
+                m[f"p_{i}_{k}"] = str(Fraction(w[k] / t).limit_denominator(1000))
+        ok = harness.pc_holds(pc or [], {k: Fraction(v) for k, v in m.items()})
+        if ok is True or (ok is None and not pc):
+            out.append(m)
     return out
